@@ -1,6 +1,6 @@
 """C10 Doors, keys and boxes respond only to a faced ACTUATE, and only as documented."""
 from gym_gridverse.action import Action
-from gym_gridverse.grid_object import Box, Door, Key, NoneGridObject
+from gym_gridverse.grid_object import Box, Color, Door, GridObject, Key, NoneGridObject
 
 from ..runner import Obligation
 from ..stubs import SIGMA_3C, SIGMA_FULL, lazy_state, pre_held, same_object
@@ -25,15 +25,43 @@ ASSUMPTIONS = ['doors/boxes in cells the step never read or wrote are unchanged 
 STUBS = ['LazyRows', 'LazyAgent']
 TIME_LIMIT = {'quick': 240, 'thorough': 1500}
 
+class Gem(GridObject, register=False):
+    """a user-defined object as the customisation tutorial describes them: holdable, coloured, not a Key"""
+
+    state_index = 0
+    color = Color.NONE
+    blocks_movement = False
+    blocks_vision = False
+    holdable = True
+
+    def __init__(self, color):
+        self.color = color
+
+    @classmethod
+    def can_be_represented_in_state(cls):
+        return True
+
+    @classmethod
+    def num_states(cls):
+        return 1
+
+    def __repr__(self):
+        return f'Gem({self.color!s})'
+
+
+def with_gems(sigma, colors):
+    return list(sigma) + [(f'Gem({c.name})', lambda c=c: Gem(c)) for c in colors]
+
+
 FUNCS = ['actuate_door', 'actuate_box', 'pickndrop', 'move_agent', 'turn_agent'] + list(CHAINS)
 
 
-def mk(fname, H, W, sigma):
+def mk(fname, H, W, sigma, held_sigma=None):
     f = transition(fname)
     comps = components(fname)
 
     def h(sx):
-        state, world = lazy_state(sx, H, W, sigma)
+        state, world = lazy_state(sx, H, W, sigma, held_sigma=held_sigma)
         a = sx.choice('a', ACTIONS)
         py, px, o = state.agent.position.y, state.agent.position.x, state.agent.orientation
         f(state, a)
@@ -82,8 +110,60 @@ def mk(fname, H, W, sigma):
     return h
 
 
+HIST = [e for e in SIGMA_3C if e[0] in ('Floor', 'Door(CLOSED,YELLOW)', 'Door(LOCKED,YELLOW)', 'Door(LOCKED,RED)', 'Key(YELLOW)', 'Box(Key(YELLOW))')]
+
+
+def mk_history(H, W, nsteps):
+    """the door/key/box rule along short histories of the full chain (objects as earlier steps left them; statuses read directly)"""
+    f = transition('chain[move,turn,actuate_door,actuate_box,pickndrop]')
+
+    def h(sx):
+        state, world = lazy_state(sx, H, W, HIST, held_sigma=[e for e in HIST if e[0].startswith('Key')])
+        for step in range(nsteps):
+            a = sx.choice(f'a{step}', [Action.ACTUATE, Action.PICK_N_DROP, Action.TURN_LEFT, Action.MOVE_FORWARD])
+            py, px, o = state.agent.position.y, state.agent.position.x, state.agent.orientation
+            cells = post_cells(state)
+            before = {k: (type(v), getattr(v, 'state', None), v.color) for k, v in cells.items()}
+            dy, dx = rot(TURNS[o], -1, 0)
+            fy, fx = py + dy, px + dx
+            expect = None
+            if a is Action.ACTUATE and sym_and(0 <= fy, fy < H, 0 <= fx, fx < W):
+                k = (int(fy), int(fx))
+                obj = cells[k] if k in cells else world.make(*k)
+                if isinstance(obj, Door):
+                    held = state.agent.grid_object
+                    opens = obj.state is Door.Status.CLOSED or (obj.state is Door.Status.LOCKED and isinstance(held, Key) and held.color is obj.color)
+                    expect = (k, Door.Status.OPEN if opens else obj.state, obj.color)
+                    if step and opens:
+                        sx.cover('door-opened-later-in-the-history')
+            f(state, a)
+            cells = post_cells(state)
+            for k, (T0, s0, c0) in before.items():
+                v = cells[k]
+                if T0 is Door:
+                    want = expect[1] if (expect is not None and expect[0] == k) else s0
+                    sx.check(isinstance(v, Door) and v.state is want and v.color is c0, f'door-rule-step{step}', f'{k}: {s0} -> {getattr(v, "state", v)} expected {want}')
+                    sx.check(blocks(v) == (v.state is not Door.Status.OPEN), f'door-flags-follow-its-status-step{step}', f'{k}: {v!r} blocks_movement={v.blocks_movement} blocks_vision={v.blocks_vision}')
+            if expect is not None and expect[0] not in before:
+                v = state.grid.objects[expect[0][0]][expect[0][1]]
+                sx.check(isinstance(v, Door) and v.state is expect[1] and v.color is expect[2], f'faced-door-rule-step{step}')
+        sx.cover('history')
+    return h
+
+
+def blocks(door):
+    """what the door itself reports (both flags must agree)"""
+    return bool(door.blocks_movement) if bool(door.blocks_movement) == bool(door.blocks_vision) else None
+
+
 def obligations(tier):
     sigma = SIGMA_3C if tier == 'quick' else SIGMA_FULL
     shp = shapes(3, 3) if tier == 'quick' else shapes(4, 4)
-    return [Obligation(f'{fname}-{H}x{W}', mk(fname, H, W, sigma), dict(function=fname, H=H, W=W, alphabet=len(sigma)))
-            for fname in FUNCS for (H, W) in shp if H * W > 1]  # 1x1 has no front cell: nothing to assert
+    hist = [Obligation(f'history-{n}steps-{H}x{W}', mk_history(H, W, n), dict(H=H, W=W, steps=n, alphabet=[e[0] for e in HIST]))
+            for (H, W, n) in ([(1, 2, 3), (2, 2, 2)] if tier == 'quick' else [(1, 2, 3), (1, 3, 3), (2, 2, 3)])]
+    gem_colors = [Color.NONE, Color.RED, Color.YELLOW] if tier == 'quick' else list(Color)
+    custom = [Obligation(f'custom-holdable-{fname}-{H}x{W}', mk(fname, H, W, sigma, with_gems(sigma, gem_colors)),
+                         dict(function=fname, H=H, W=W, held='the alphabet plus a user-defined holdable coloured object (Gem) of each colour'))
+              for fname in ('actuate_door', 'chain[move,turn,actuate_door,pickndrop]') for (H, W) in [(1, 2), (2, 2)]]
+    return hist + custom + [Obligation(f'{fname}-{H}x{W}', mk(fname, H, W, sigma), dict(function=fname, H=H, W=W, alphabet=len(sigma)))
+                   for fname in FUNCS for (H, W) in shp if H * W > 1]  # 1x1 has no front cell: nothing to assert
